@@ -71,7 +71,7 @@ def check_shape(events, prefix_events):
 
 
 def run(ctx, out):
-    spec = S.load_schema(ctx.schema)
+    spec = S.load_spec()        # reply alphabets, kinds and final sets from the frozen specification table
     rng = ctx.rng
     thorough = ctx.search_tier == "thorough"
     depth = 3 if not thorough else 4
